@@ -47,10 +47,20 @@ func mutantCases(c *Check, pool *sup.Pool, nProg, nMut int, salt int, families [
 		bared += n
 		return q.Text()
 	}
-	for _, pc := range cases {
+	inflated := map[string]int{}
+	for i, pc := range cases {
 		ms = append(ms, &mcase{base: pc, text: pc.Text, v: typing.Verdict{Kind: typing.Accept}, family: "none", op: "unmutated"})
 		if t := write(pc.P); t != pc.Text {
 			ms = append(ms, &mcase{base: pc, text: t, v: typing.Verdict{Kind: typing.Accept}, family: "none", op: "unmutated-heads-omitted"})
+		}
+		// the same program made large in one respect (alias chains, many definitions, many
+		// functions, long chains of cuts, long names, many parameters)
+		if i%2 == 0 {
+			q, kind := mut.Inflate(pc.P, r, "")
+			if v := typing.Check(q); v.Kind == typing.Accept {
+				inflated[kind]++
+				ms = append(ms, &mcase{base: pc, text: write(q), v: v, family: "none", op: "unmutated-inflated-" + kind})
+			}
 		}
 	}
 	for i := 0; i < nMut; i++ {
@@ -59,8 +69,23 @@ func mutantCases(c *Check, pool *sup.Pool, nProg, nMut int, salt int, families [
 		if m == nil {
 			continue
 		}
+		if i%5 == 4 || (len(families) == 1 && i%3 == 1) {
+			// a mutant of the inflated program: the defect sits next to something large (the
+			// single-family checks C05 / C06 use alias chains for a third of their mutants: the
+			// mode of a channel then comes down a long chain of definitions)
+			kind := ""
+			if len(families) == 1 && i%3 == 1 {
+				kind = "alias-chain"
+			}
+			if q, kind := mut.Inflate(m.P, r, kind); q != nil {
+				inflated["mutant/"+kind]++
+				ms = append(ms, &mcase{base: pc, m: m, text: write(q), v: typing.Check(q), family: m.Family, op: m.Op})
+				continue
+			}
+		}
 		ms = append(ms, &mcase{base: pc, m: m, text: write(m.P), v: typing.Check(m.P), family: m.Family, op: m.Op})
 	}
+	c.Extra["inflated_programs_by_kind"] = inflated
 	c.Extra["head_mode_annotations_omitted"] = bared
 	jobs := make([]sup.Job, len(ms))
 	for i, m := range ms {
